@@ -1,13 +1,54 @@
+//! Engine self-tests: explorer (seeded bug must be found with known counts), baton scheduler, and the
+//! worker isolation (a case that aborts, one that hangs and one that panics must each be pinned).
+use vh::Ctx;
+
 fn main() {
+    // worker side of the isolation self-test (re-entered through Ctx::universe_isolated)
+    let is_worker = std::env::args().any(|a| a == "--worker");
     let mut bad = false;
-    for r in [vh::explore::self_test(), vh::baton::self_test()] {
-        match r {
-            Ok(m) => println!("{m}"),
-            Err(e) => {
-                eprintln!("SELFTEST FAILED: {e}");
-                bad = true;
+    if !is_worker {
+        for r in [vh::explore::self_test(), vh::baton::self_test()] {
+            match r {
+                Ok(m) => println!("{m}"),
+                Err(e) => {
+                    eprintln!("SELFTEST FAILED: {e}");
+                    bad = true;
+                }
             }
         }
+    }
+    std::env::set_var("VERIF_NO_EVIDENCE", "1");
+    let ctx = Ctx::from_env("SELFTEST");
+    ctx.universe_isolated("isolation", 100, 0.5, 512, |idx, l| {
+        l.states(1);
+        match idx {
+            37 => std::process::abort(),
+            58 => loop {
+                std::hint::spin_loop();
+            },
+            70 => panic!("seeded panic"),
+            81 => {
+                // allocation beyond the address-space limit
+                let v: Vec<u8> = vec![1; 2 << 30];
+                std::hint::black_box(&v);
+            }
+            _ => {}
+        }
+    });
+    let (classes, evals) = ctx.class_summary();
+    let want = [("abort", 2u64), ("hang", 1), ("panic", 1)];
+    for (c, n) in want {
+        if classes.get(c).copied().unwrap_or(0) != n {
+            eprintln!("SELFTEST FAILED: isolation expected {n} x {c}, got {classes:?}");
+            bad = true;
+        }
+    }
+    if evals != 100 {
+        eprintln!("SELFTEST FAILED: isolation evaluated {evals} of 100 cases");
+        bad = true;
+    }
+    if !bad {
+        println!("isolation self-test ok: abort (SIGABRT and allocation failure), hang and panic each pinned to their case; {evals}/100 cases accounted for");
     }
     std::process::exit(i32::from(bad));
 }
